@@ -22,6 +22,7 @@ CLAUSE = CLAUSE + (" station_lookup selects a table row by comparing the whole c
                    "gates the announcing decoders.")
 CLAUSE = CLAUSE + (" parse_8_30 decodes local time only under designation 0..1 and the programme id only under 2..3.")
 CLAUSE = CLAUSE + (" parse_8_30 is dispatched on the full channel number (pmag & 15) == 0.")
+CLAUSE = CLAUSE + (' The channel-switch countdown is armed only when a previous frame exists (vbi->time > 0).')
 NOT_DECIDED = ("that the event carries exactly the transmitted values (value fidelity), exactly-one event under interleaved "
                "carriers, the XDS carrier's missing `id != nuid` test (XDS is checksum protected and not among the four "
                "carriers the statement quantifies over; recorded as a note).")
